@@ -163,6 +163,10 @@ closes no channel but `closeCh` and invokes no callback — so `stepClose` may d
 theorem acks_released_only_by_persister :
     BlugeGen.C02.ackFieldUsers = ["persisterLoop", "replaceRoot"] ∧ BlugeGen.C02.closeTouchesAcks = false := by decide
 
+/-- `reopen` commits exactly the snapshots that LOADED (`loadOrder`): loadSnapshots has one `deletionPolicy.Commit` call and it
+is not in an error branch — committing an unloadable (torn newest) epoch would make the last good snapshot deletable -/
+theorem load_commits_only_loaded : BlugeGen.C02.loadCommitCalls = 1 ∧ BlugeGen.C02.loadCommitOnErr = false := by decide
+
 /-! Non-vacuity and necessity of the hypotheses (tests on concrete traces, beside the theorems). -/
 
 /-- a concrete run: one safe batch is introduced, persisted and acknowledged -/
@@ -179,6 +183,12 @@ example : (run (init 1) [.openWriter, .intro 1 (some 2) [] true false, .persistG
 /-- Close() while batch 2 is introduced but not grabbed: its acknowledgement is never released (the nil return is not enabled) -/
 example : run (init 1) (demo ++ [.intro 3 (some 3) [] true false, .closeWriter, .ackObs 2]) = none := by decide
 example : (run (init 1) (demo ++ [.intro 3 (some 3) [] true false, .closeWriter])).map (fun s => (s.acked, s.waitAcks)) = some ([1], []) := by decide
+
+/-- crash with the NEWEST snapshot file torn, reopen: only the loadable snapshots are committed, the last good one is live
+(not deletable: its removal is not enabled), and recovery still returns batch 1 -/
+example : (run (init 1) (demo ++ [.persistGrab, .snapBegin, .crash, .openWriter])).map
+    (fun s => (s.commits, s.pol.live, s.pol.deletable, s.disk.recoverK)) = some ([1], [1], [], some 1) := by decide
+example : run (init 1) (demo ++ [.persistGrab, .snapBegin, .crash, .openWriter, .cleanupRemoveSnap 1 true]) = none := by decide
 
 /-- the assumption `Event.exact` (C13) is needed: if the snapshot Persist returns nil but the file is not
 the bytes written, the batch is acknowledged and recovery finds nothing -/
